@@ -93,7 +93,42 @@ def expected_ports(ifaces):
     return [int(i.split('://')[1]) for i in ifaces if i.startswith('tcp')]
 
 
+def check_announcement(ctx, case):
+    """the start-up broadcast: every datagram at most 508 bytes of UTF-8 JSON with a port listened on, one per TCP port"""
+    eid, desc, ifaces = case['eid'], case['desc'], case['ifaces']
+    try:
+        lst, sock, mod = make_listener(eid, desc, ifaces, broadcast=True)
+    except Exception:   # noqa - reported by check_identity
+        return
+    sock.script = []
+    ctx.ev()
+    try:
+        lst.run()
+    except BaseException as e:   # noqa
+        ctx.finding(f'announce:run-raises:{type(e).__name__}', case, repr(e)[:200])
+        return
+    ports = expected_ports(ifaces)
+    got = []
+    for msg, addr in sock.sent:
+        if len(msg) > LIMIT:
+            ctx.finding('announce:longer-than-508' + ('' if lst.is_enabled else ':responder-disabled'), case, f'{len(msg)} bytes to {addr!r}')
+            return
+        try:
+            obj = json.loads(msg.decode('utf-8'))
+            got.append(obj['port'])
+            if obj.get('SECoP') != 'node' or obj.get('equipment_id') != eid:
+                raise ValueError('identity')
+        except Exception as e:   # noqa
+            ctx.finding(f'announce:malformed:{type(e).__name__}', case, repr(msg[:80]))
+            return
+    if lst.is_enabled and got != ports:
+        ctx.finding('announce:not-once-per-port', case, f'{got!r} vs {ports!r}')
+    else:
+        ctx.ok('announcement-well-formed')
+
+
 def check_identity(ctx, case):
+    check_announcement(ctx, case)
     eid, desc, ifaces = case['eid'], case['desc'], case['ifaces']
     ctx.ev()
     try:
